@@ -30,6 +30,8 @@ func runC15(c *Ctx) {
 	c15Wire(c, "C15.wire")
 	c15Async(c)
 	c15Commit(c)
+	// the per-type functions cached on the shared *Schema keep no scratch of their own
+	runReentrantRule(c, "C15.reentrant", func(fn *ssa.Function) bool { return inModule(fn) }, nil, 60)
 }
 
 func globalOf(v ssa.Value) *ssa.Global {
